@@ -224,7 +224,7 @@ def run(tier, rep):
     ntiny = check_tiny_bases(rep)
     cfg = open(vlib.SPEC + '/MC_StepGen.cfg').read()
     if tier == 'quick':
-        cfg = cfg.replace('ValN = {1, 2, 5, 8}', 'ValN = {1, 5}').replace('ValO = {1, 2, 3, 4, 6}', 'ValO = {2, 3}')
+        cfg = cfg.replace('ValN = {1, 2, 5, 8}', 'ValN = {1, 5}').replace('ValO = {1, 2, 3, 4, 6}', 'ValO = {2, 3, 4, 6}')      # orders of 4 and more are where the order term of the default scale shows
     res = vlib.tlc('MC_StepGen', cfg_text=cfg, tag='MC_StepGen')
     if res.violated:
         raise vlib.MachineryError('model violates %s\n%s' % (res.violated, res.out[-1500:]))
